@@ -38,6 +38,11 @@ func c18Gen(class string, seed uint64, tier string) *vfScenario {
 	}
 	delete(sc.Cfg, "alloc")
 	if rng.IntN(4) == 0 {
+		// another session of the same process (its own server, allocator on) has served a few requests
+		// and sits idle while the session under test runs
+		sc.Cfg["companion"] = 1
+	}
+	if rng.IntN(4) == 0 {
 		sc.Cfg["maxtx"] = int64(32768 + rng.IntN(200000))
 	}
 	return sc
@@ -92,6 +97,26 @@ func c18RunOne(r *vfRun, sim *vfSim, alloc bool) *c18Outcome {
 		sc.Cfg["alloc"] = 1
 	}
 	rr := &vfRun{sc: sc, sim: sim, t: r.t, res: r.res}
+	var comp *vfSession
+	if sc.cfg("companion", 0) != 0 {
+		csc := &vfScenario{Prop: sc.Prop, Class: sc.Class, Seed: sc.Seed ^ 0x77, Cfg: map[string]int64{"kind": sc.cfg("kind", 0), "alloc": 1, "sites": sc.cfg("sites", 3), "hopt": 1}}
+		name := "/f0"
+		if csc.Cfg["kind"] == 0 {
+			name = "f0"
+		}
+		cops := []vfOp{{K: "open", P: name, A: 1, H: 0}, {K: "read", H: 0, N: 50}, {K: "read", H: 0, Off: 50, N: 100}, {K: "fstat", H: 0}, {K: "close", H: 0}, {K: "stat", P: name}}
+		comp = vfStartSession(&vfRun{sc: csc, sim: sim, t: r.t, res: r.res}, cops)
+		defer comp.cleanup()
+		sim.run(nil)
+		if sim.failed() {
+			return nil
+		}
+		if comp.wc.nReplies() != len(comp.wc.reqs) || comp.wc.nReplies() < len(cops) {
+			sim.fail("C18/setup", "companion", "the companion session got %d replies for %d requests", comp.wc.nReplies(), len(comp.wc.reqs))
+			return nil
+		}
+		sim.count("probe.companion_session")
+	}
 	s := vfStartSession(rr, sc.Ops)
 	defer s.cleanup()
 	a := s.srv.alloc
@@ -139,6 +164,16 @@ func c18RunOne(r *vfRun, sim *vfSim, alloc bool) *c18Outcome {
 			sim.fail("C18/not-freed", "free", "after Serve returned the allocator still holds %d used and %d free pages", a.countUsedPages(), a.countAvailablePages())
 			return nil
 		}
+	}
+	if comp != nil {
+		// the idle companion is untouched: exactly the page for its next packet is lent, and it can still be served
+		if ca := comp.srv.alloc; ca != nil {
+			if used, next := ca.countUsedPages(), comp.srv.pktMgr().getNextOrderID(); used != 1 || !ca.isRequestOrderIDUsed(next) {
+				sim.fail("C18/other-session-disturbed", "companion", "after the session under test ended, the idle companion session's allocator has %d pages in use (its next order id %d in use: %v); want exactly the one for its next packet", used, next, ca.isRequestOrderIDUsed(next))
+				return nil
+			}
+		}
+		comp.finish()
 	}
 	out.stream = append([]byte(nil), s.srv.s2c.buf...)
 	if s.root != "" {
